@@ -43,7 +43,7 @@ var Catalogue = []string{
 	// run with Constraints.AllowErrPathPrefix (suffix "@prefix"): a prefix ending at an element boundary is
 	// allowed there (the reference "ref:prefixed-paths@prefix" has one), one glued onto the name is not
 	// (no scenario looks at the path of a Stat error for a valid name, so there is no Stat entry)
-	"Open:error-path-glued@prefix", "Mkdir:error-path-glued@prefix", "Remove:error-path-glued@prefix",
+	"Open:error-path-cleaned@prefix", "Open:error-path-glued@prefix", "Mkdir:error-path-glued@prefix", "Remove:error-path-glued@prefix",
 	// EOF
 	"file.Read:eof-early", "file.ReadAt:missing-eof", "file.Read:short-forever",
 	// the end of file reported as an error that merely wraps io.EOF (every io.Reader consumer compares with ==); this
@@ -82,6 +82,14 @@ func New(dev string) (*FS, error) {
 }
 
 func (f *FS) is(d string) bool { return f.dev == d }
+
+// utc is the reference variant "ref:utc-modtime": the right instants, reported in UTC instead of the local zone.
+func (f *FS) utc(t time.Time) time.Time {
+	if f.dev == "ref:utc-modtime" {
+		return t.UTC()
+	}
+	return t
+}
 
 func rePath(err error, p string) error {
 	var pe *hackpadfs.PathError
@@ -154,6 +162,10 @@ func (f *FS) OpenFile(name string, flag int, perm hackpadfs.FileMode) (hackpadfs
 			err = rePath(err, "x/"+name)
 		case f.is("ref:prefixed-paths") && hackpadfs.ValidPath(name):
 			err = rePath(err, "mnt/"+name)
+		case f.is("Open:error-path-cleaned"):
+			// a prefix is allowed in this configuration, another path behind it is not: the unclean name foo/../bar
+			// reported as mnt/bar names a different file
+			err = rePath(err, "mnt/"+path.Clean(name))
 		case f.is("Open:error-path-glued") && hackpadfs.ValidPath(name):
 			err = rePath(err, "mnt"+name)
 		}
@@ -373,7 +385,7 @@ func (i devInfo) ModTime() time.Time {
 	if i.fs.is(i.at + ":modtime") {
 		return i.FileInfo.ModTime().Add(48 * time.Hour)
 	}
-	return i.FileInfo.ModTime()
+	return i.fs.utc(i.FileInfo.ModTime())
 }
 
 func (f *FS) Stat(name string) (hackpadfs.FileInfo, error) {
